@@ -246,6 +246,36 @@ class RuleDriver:
         return rules.do_request(sim, self.sys, self.switches, req)
 
 
+def refs_obs(sims, nvars):
+    """back-pointers of every simulation of the world in canonical form: an object is named by
+    the number of the simulation it belongs to (-1: none of them), a population also by its
+    kind (0 persons, 1 household); compared with coq/model/HeapRefs.v"""
+    def sim_ref(x):
+        return next((j for j, s in enumerate(sims) if s is x), -1)
+
+    def tracer_ref(x):
+        return next((j for j, s in enumerate(sims) if s.tracer is x), -1)
+
+    def pop_ref(x):
+        for j, s in enumerate(sims):
+            if s.populations["person"] is x:
+                return [j, 0]
+        for j, s in enumerate(sims):
+            if s.populations["household"] is x:
+                return [j, 1]
+        return [-1, -1]
+
+    out = []
+    for s in sims:
+        pp, gg = s.populations["person"], s.populations["household"]
+        holders = []
+        for v in range(nvars):
+            h = s.get_holder(f"v{v}")
+            holders.append([sim_ref(h.simulation), pop_ref(h.population)])
+        out.append([sim_ref(pp.simulation), sim_ref(gg.simulation), pop_ref(gg.members), tracer_ref(s.tracer), holders])
+    return out
+
+
 def driver_for(case):
     return TypedDriver(case) if case.get("kind") == "typed" else RuleDriver(case)
 
@@ -423,7 +453,8 @@ def _run(case, dirs):
                 ans = _apply(sims, drv, op)
             if any(len(s.tracer.stack) != 0 for s in sims):
                 checks.append(f"step {k}: stack: evaluation stack not empty between operations")
-            steps.append([ans, None if quiet else [drv.obs(s) for s in sims]])
+            refs = None if quiet or case.get("kind") == "typed" else refs_obs(sims, len(case["sys"]["vars"]))
+            steps.append([ans, None if quiet else [drv.obs(s) for s in sims], refs])
         inter = None
         for clone_free in (False, True):
             for target in range(len(sims)):
